@@ -223,7 +223,39 @@ func Select(arr, idx Term) Term {
 	if !ok {
 		panic(fmt.Sprintf("select on non-array %s : %s", arr.S, arr.Sort))
 	}
-	return App(v, "select", arr, idx)
+	// read over write, decided syntactically where possible
+	cur := arr
+	for strings.HasPrefix(cur.S, "(store ") {
+		parts := splitSexp(cur.S)
+		if len(parts) != 4 {
+			break
+		}
+		if parts[2] == idx.S {
+			return Term{parts[3], v}
+		}
+		if isAllocSym(parts[2]) && isAllocSym(idx.S) || isIntText(parts[2]) && isIntText(idx.S) {
+			cur = Term{parts[1], arr.Sort} // distinct allocation constants / distinct literals
+			continue
+		}
+		break
+	}
+	return App(v, "select", cur, idx)
+}
+
+func isAllocSym(s string) bool {
+	return strings.HasPrefix(s, "new!") || strings.HasPrefix(s, "|new!")
+}
+
+func isIntText(s string) bool {
+	if s == "" {
+		return false
+	}
+	for _, c := range s {
+		if c < '0' || c > '9' {
+			return false
+		}
+	}
+	return true
 }
 
 func Store(arr, idx, val Term) Term {
